@@ -66,3 +66,19 @@ MUTANTS = [
     m("c06-drop-dir", "C06", "R0", "self._step(state, state.dir * self.step_size)", "self._step(state, state.dir * self.step_size * 2)"),
     m("c06-twin-div", "C06", None, "        self._step_a(state, 0.5 * time_step)\n        self._step_b(state, time_step)\n        self._step_a(state, 0.5 * time_step)", "        self._step_a(state, time_step / 2)\n        self._step_b(state, time_step)\n        self._step_a(state, time_step / 2)", twin=True),
 ]
+
+DEF_C_ADJ = "    def _step_c_adj(self, state: ChainState, time_step: float) -> None:"
+DEF_C_ADJ_G = "    def _step_c_adj(self, state: ChainState, time_step: float, pos_guess=None) -> None:"
+SOLVE_C = "        pos_init = state.pos\n        state.pos = self._solve_fixed_point(fixed_point_func, pos_init)"
+SOLVE_C_G = "        pos_init = state.pos\n        if pos_guess is None:\n            pos_guess = pos_init\n        state.pos = self._solve_fixed_point(fixed_point_func, pos_guess)"
+MUTANTS += [
+    {"id": "c02-check-warm-started", "prop": "C02", "rule": "R4", "edits": [
+        {"file": I, "old": DEF_C_ADJ, "new": DEF_C_ADJ_G},
+        {"file": I, "old": SOLVE_C, "new": SOLVE_C_G},
+        {"file": I, "old": "        self._step_c_adj(state_back, -time_step)", "new": "        self._step_c_adj(state_back, -time_step, pos_guess=pos_init)"},
+    ]},
+    {"id": "c02-twin-guess-param-unused", "prop": "C02", "rule": None, "twin": True, "edits": [
+        {"file": I, "old": DEF_C_ADJ, "new": DEF_C_ADJ_G},
+        {"file": I, "old": SOLVE_C, "new": SOLVE_C_G},
+    ]},
+]
